@@ -167,12 +167,19 @@ def chain_registry(log):
     r.call_contracts["phyclone.tree.tree.Tree.get_single_node_tree"] = lambda I, a, k, n: ("start-tree",)
     r.class_models["Timer"] = lambda I, *a, **k: ("timer",)
 
+    def bind(I, qual, args, kwargs):
+        """positional and keyword arguments bound to the callee's parameter names (a call may use either spelling)"""
+        names = [a.arg for a in I.repo.lookup(qual).node.args.args]
+        b = dict(zip(names, args))
+        b.update(kwargs)
+        return b
+
     def burnin(I, args, kwargs, node):
-        log.append(("burnin", args))
+        log.append(("burnin", bind(I, "phyclone.run._run_burnin", args, kwargs)))
         return ("burnin-tree",)
 
     def main(I, args, kwargs, node):
-        log.append(("main", args))
+        log.append(("main", bind(I, "phyclone.run._run_main_sampler", args, kwargs)))
         return ("results",)
 
     r.call_contracts["phyclone.run._run_burnin"] = burnin
@@ -195,10 +202,7 @@ def h_chain(I, fi):
                  "chain_num": alg.sym("chain", "Int")})
     out = I.call_function(fi, [vals[n_] for n_ in names], {}, force_inline=True)
     P.check("run.chain.order", [e[0] for e in log] == ["burnin", "main"] and out == ("results",), "burn-in, then the main sampler whose results are returned", kind="post")
-    b_args, m_args = log[0][1], log[1][1]
-    bn = [a.arg for a in I.repo.lookup("phyclone.run._run_burnin").node.args.args]
-    mn = [a.arg for a in I.repo.lookup(MAIN).node.args.args]
-    B, M = dict(zip(bn, b_args)), dict(zip(mn, m_args))
+    B, M = log[0][1], log[1][1]
     td = M["tree_dist"]
     sh = M["samplers"]
     same = (B["tree_dist"] is td and B["samplers"] is sh and I.getattr(I.getattr(sh, "tree_sampler"), "kernel") is I.getattr(I.getattr(sh, "subtree_sampler"), "kernel")
